@@ -79,11 +79,13 @@ def probe(cls):
         try:
             delattr(x, fs[0].name)
             bad.append("delattr_accepted")
+            x = concrete_instance(cls)  # the probe instance lost a field: continue on a fresh one
         except (dataclasses.FrozenInstanceError, AttributeError):
             pass
     try:
         x.some_new_attribute = 1
         bad.append("new_attribute_accepted")
+        x = concrete_instance(cls)
     except (dataclasses.FrozenInstanceError, AttributeError, TypeError):
         pass
     if hasattr(x, "__dict__"):
@@ -103,8 +105,12 @@ def probe(cls):
             continue
         if y != x or type(y) is not type(x):
             bad.append(f"{name}_not_equal")
-        elif hash(y) != hash(x):
-            bad.append(f"{name}_hash_differs")
+        elif "unhashable" not in bad:
+            try:
+                if hash(y) != hash(x):
+                    bad.append(f"{name}_hash_differs")
+            except TypeError:
+                bad.append(f"{name}_unhashable")
         if tuple(getattr(x, f.name) for f in fs) != before:
             bad.append(f"{name}_mutated_original")
     if x != x:
@@ -219,7 +225,10 @@ def hash_on_model(h, c):
         return None
     finally:
         shapes.FILL_CLASS.clear()
-    return ca == cb and hash(ca) == hash(cb)
+    try:
+        return ca == cb and hash(ca) == hash(cb)
+    except TypeError:
+        return False  # unhashable instance: counted as an inconsistent hash (the facts table names the class)
 
 
 def task_class(args):
